@@ -32,6 +32,12 @@ def oracle_tokens(s, r):
     """token classification on the implementation's answer (documented grammar, hand-written here)"""
     import re
     if "ok" not in r:
+        # a pattern whose every token is well-formed must be accepted
+        if s.count("%") % 2 == 0:
+            parts = s.split("%")
+            toks = [p for p in parts[1::2]]
+            if all(t == "" or re.fullmatch(r"[A-Za-z]((\.|-|_)?[A-Za-z0-9])*", t) or re.fullmatch(r"(env|envInt|todo)\((.*)\)", t) for t in toks):
+                return "pattern %r consists of well-formed tokens only but is rejected: %r" % (s, r.get("errs"))
         return None
     for t in r["ok"]:
         c = t["raw"]
@@ -41,8 +47,10 @@ def oracle_tokens(s, r):
             inner = c[1:-1]
             if re.fullmatch(r"[A-Za-z]((\.|-|_)?[A-Za-z0-9])*", inner):
                 want = "ref"
+            elif re.fullmatch(r"(env|envInt|todo)\((.*)\)", inner):
+                want = "fn"
             else:
-                return "token %r accepted although it is neither a reference nor a registered function" % c if t["kind"] != "fn" else None
+                return "token %r accepted although it is neither a reference nor a registered function" % c
         else:
             want = "str"
         if t["kind"] != want:
@@ -57,6 +65,17 @@ def run(ctx):
     cases = list(gen.strings_upto(gen.ALPHA_PATTERN, L))
     nrand = 3000 if ctx.quick else 40000
     cases += [gen.rand_unicode(ctx.rng) for _ in range(nrand)]
+    # structured patterns: well-formed tokens with non-ASCII content, repeated references, function calls with arbitrary argument text
+    inner = ["é", "Grüß Gott", "Łódź", "𝄞", "a b", "x,y", "(", ")", "()", "\"q\"", "1", "", "później – potem", "a\tb"]
+    for _ in range(1500 if ctx.quick else 20000):
+        r = ctx.rng.random()
+        if r < 0.4:
+            tok = "%" + ctx.rng.choice(["env", "envInt", "todo", "nofn", "Env", "env2"]) + "(" + ", ".join(json.dumps(ctx.rng.choice(inner), ensure_ascii=False) for _ in range(ctx.rng.randint(0, 2))) + ")%"
+        elif r < 0.6:
+            tok = "%" + ctx.rng.choice(["p", "my.param", "a-b_c", "é", "p.", "1p", "p p"]) + "%"
+        else:
+            tok = gen.wild_pattern(ctx.rng, ["p", "q.r"])
+        cases.append(ctx.rng.choice(["", "x", "é "]) + tok + ctx.rng.choice(["", "%%", " y", tok]))
     reqs = []
     fns = [["env", "", "getEnv"], ["envInt", "", "getEnvInt"], ["todo", "", "paramTodo"]]
     for s in cases:
